@@ -103,7 +103,7 @@ def safe_check(prop, case):
 
 
 def _shard(args):
-    pid, tier, seed, shard, n_examples, deadline = args
+    pid, tier, seed, shard, n_examples, deadline, enum_cases = args
     import hypothesis
     from hypothesis import HealthCheck, Phase, given, settings
     prop = load_prop(pid)
@@ -113,6 +113,15 @@ def _shard(args):
     }
     try:
         prop.setup_shard(tier, seed, shard)
+        for case in enum_cases:
+            out = safe_check(prop, case)
+            _record(prop, res, case, out)
+        res['enum_done'] = len(enum_cases)
+        res['extra'] = prop.extra_evidence(tier) if enum_cases else {}
+        if n_examples <= 0:
+            prop.teardown_shard()
+            res['nontrivial_keys'] = list(res['nontrivial_keys'])
+            return res
         strat = prop.strategy(tier)
 
         @hypothesis.seed((seed * 1000003 + shard * 7919 + 17) & 0xffffffff)
@@ -190,7 +199,7 @@ def _ddmin_seq(seq, test, join, max_tests):
     return seq
 
 
-def shrink_case(prop, case, sig, max_tests=3000, time_cap=120):
+def shrink_case(prop, case, sig, max_tests=3000, time_cap=40):
     from .common import ref_split_lines
     t_end = time.time() + time_cap
     budget = [max_tests]
@@ -354,19 +363,9 @@ def run_check(pid, tier, seed):
             notes.append('listed finding %s no longer reproduces' % k['id'])
             print('note: listed finding %s no longer reproduces on this tree' % k['id'])
 
-    # 3. deterministic enumerations
-    n_enum = 0
-    for case in prop.enumerate(tier, seed):
-        out = judge(case, 'enum')
-        n_enum += 1
-        if out.nontrivial and len(samples) < 2:
-            samples.append(prop.sample_repr(case))
-        if out.fail is not None:
-            k = match_known(known, out.fail[0])
-            if k:
-                known_hits[k['id']] += 1
-            elif not any(v[0] == out.fail[0] for v in violations):
-                violations.append((out.fail[0], case, out.fail[1], None))
+    # 3. deterministic enumerations: materialised here, evaluated by the shard workers (round-robin)
+    enum_list = list(prop.enumerate(tier, seed))
+    n_enum = len(enum_list)
     prop.teardown_shard()
 
     # 4. generated campaign
@@ -376,13 +375,14 @@ def run_check(pid, tier, seed):
     budget_exhausted = False
     errors = []
     fail_counts = Counter()
-    if total > 0:
-        per = max(1, total // NSHARDS)
-        jobs = [(pid, tier, seed, s, per, deadline) for s in range(NSHARDS)]
+    if total > 0 or enum_list:
+        per = max(1, total // NSHARDS) if total > 0 else 0
+        jobs = [(pid, tier, seed, s, per, deadline, enum_list[s::NSHARDS]) for s in range(NSHARDS)]
         ctx = multiprocessing.get_context('fork')
         with ctx.Pool(min(NSHARDS, os.cpu_count() or 1)) as pool:
             results = pool.map(_shard, jobs, chunksize=1)
         gen_fail = {}
+        shard_extra = {}
         for r in results:
             if r['error']:
                 errors.append(r['error'])
@@ -396,6 +396,8 @@ def run_check(pid, tier, seed):
             for s in r['samples']:
                 if len(samples) < 6:
                     samples.append(s)
+            for k_, v_ in (r.get('extra') or {}).items():
+                shard_extra.setdefault(k_, v_)
             for sig, lst in r['failures'].items():
                 gen_fail.setdefault(sig, []).extend(lst)
         if errors:
@@ -437,7 +439,7 @@ def run_check(pid, tier, seed):
 
     # 6. generator health
     nfrac = len(nontrivial) / max(1, evaluations)
-    if total > 0 and rc == 0 and nfrac < prop.min_nontrivial_fraction and not budget_exhausted:
+    if (total > 0 or n_enum) and rc == 0 and nfrac < prop.min_nontrivial_fraction and not budget_exhausted:
         sys.stderr.write('HARNESS ERROR: degenerate generator: %d distinct non-trivial of %d cases\n'
                          % (len(nontrivial), evaluations))
         rc = 2
@@ -462,6 +464,9 @@ def run_check(pid, tier, seed):
     if notes:
         cov['notes'] = notes
     cov.update(prop.extra_evidence(tier) or {})
+    for k_, v_ in (locals().get('shard_extra') or {}).items():
+        if not cov.get(k_):
+            cov[k_] = v_
     ev = {
         'property_id': pid, 'tier': tier, 'seed': seed, 'level': prop.level, 'coverage': cov,
         'assumptions': list(prop.assumptions), 'wall_s': round(time.time() - t0, 2),
